@@ -299,3 +299,10 @@ Definition sweep_setup_byte (sp : N) (x : N) : list N :=
 Definition sweep_setup_crcflip (sp : N) (x : N) : list N := setup_txn ref_setup (N.shiftl 1 x) sp.
 Definition c6_sweep_eq (gstep : N -> N -> N * N) (ginit : N) (w : nat) (mk : N -> list N) : bool :=
   forall_bits w (fun x => list_eqb (run gstep ginit (mk x)) (run (c6_step true true) c6_init (mk x))).
+
+(* over-long data stage: a complete valid setup data packet (8 bytes + their CRC16) followed by 1..4 copies of an
+   extra byte; sweep index x (10 bits): extra byte = x mod 256, copies = 1 + x / 256.  Never a setup request. *)
+Definition setup_txn_bytes (dbytes : list N) (sp : N) : list N :=
+  c6_idle 1 0 sp ++ c6_pkt setup_token00 0 sp ++ c6_idle 2 0 sp ++ c6_pkt dbytes 0 sp ++ c6_idle 16 0 sp.
+Definition sweep_setup_extra (sp : N) (x : N) : list N :=
+  setup_txn_bytes (data_bytes 195 ref_setup 0 ++ repeat (N.land x 255) (S (N.to_nat (N.shiftr x 8)))) sp.
